@@ -550,10 +550,10 @@ func (s *UtxoStore) deleteUnminedInputs(tx mwdb.DBTransaction, rec *TxRecord) er
 	for _, input := range rec.MsgTx.TxIn {
 		prevOut := &input.PreviousOutPoint
 		k := canonicalOutPoint(&prevOut.Hash, prevOut.Index)
-		if len(existsRawUnminedInput(nsUnminedInputs, k)) > 0 {
-			if err := deleteRawUnminedInput(nsUnminedInputs, k); err != nil {
-				return err
-			}
+		// delete without looking first: the lookup drops read errors and would
+		// leave the entry (and the coin flagged as spent) behind
+		if err := deleteRawUnminedInput(nsUnminedInputs, k); err != nil {
+			return err
 		}
 	}
 	return nil
